@@ -122,6 +122,12 @@ type PoolDirective struct {
 	Pkg  string
 }
 
+// sawRuneStart: some contract speaks about rune boundaries, so range loops over strings publish them.
+var sawRuneStart bool
+
+// sawLineFns: some contract counts line feeds (nlCount / lineStart), so range loops publish the per-rune step facts.
+var sawLineFns bool
+
 type ContractSet struct {
 	Pools     map[string]*PoolDirective
 	LangDirs  []*LangDirective
@@ -353,6 +359,12 @@ func (cs *ContractSet) parse(src, file, pkgPath string) {
 		t = strings.TrimSpace(strings.TrimPrefix(t, "//@"))
 		if t == "" || strings.HasPrefix(t, "#") {
 			continue
+		}
+		if strings.Contains(t, "runeStart(") {
+			sawRuneStart = true
+		}
+		if strings.Contains(t, "nlCount(") || strings.Contains(t, "lineStart(") {
+			sawLineFns = true
 		}
 		if startsKeyword(t) != "" || len(raws) == 0 {
 			raws = append(raws, rawClause{t, i + 1})
